@@ -89,6 +89,20 @@ def run(ctx):
               ("empty", b""), ("small", coders.rand_data(rng, 700, "text")), ("zeros", bytes(120000))]
     nseeds = 4 if ctx.quick else 12
     groups = []; jobs = []
+    # The "incompressible" fallback of worker_encode() (lzma_block_uncomp_encode when the LZMA2 output no longer fits
+    # in the worker's output buffer) is reached only by Blocks of many MiB of random data: LZMA2 stores such data in
+    # chunks a little smaller than the 64 KiB the bound assumes.  One big Block that a barrier / flush / FINISH ends
+    # a few bytes before block_size, then a short second Block.  These runs use the ASan driver (TSan is too slow).
+    BIG = 24 << 20
+    big_short = rng.randint(1, 4)       # the fallback is reached only if the Block is this close to block_size
+    big_data = rng.randbytes(BIG - big_short + 3000)
+    path = os.path.join(wd, "bigrand.in"); open(path, "wb").write(big_data)
+    gbig = dict(inp="bigrand", path=path, data=big_data, nw=2, bs=BIG, timeout=0, runs=[], big=True)
+    groups.append(gbig)
+    for k, kind in enumerate("bf" if not ctx.quick else rng.choice("bf")):
+        a = [(kind, BIG - big_short)]
+        jobs.append((gbig, dict(threads=2, blocksize=BIG, timeout=0, seed=ctx.seed * 1000 + 900 + k, perturb=0, slicing=0, endafter=-1,
+                                check=10, watchdog=120, asan=1, actions="%s%d" % a[0]), a))
     for ii, (iname, data) in enumerate(inputs):
         path = os.path.join(wd, iname + ".in"); open(path, "wb").write(data)
         settings = [(2, 40000, 0), (3, 25000, 0)] if ctx.quick else [(1, 40000, 0), (2, 40000, 0), (3, 25000, 0), (4, 16384, 0), (8, 20000, 0)]
@@ -130,12 +144,14 @@ def run(ctx):
     def exec_job(idx):
         g, params, acts = jobs[idx]
         p = {k: v for k, v in params.items() if not (k == "actions" and v == "") and k != "asan"}
-        res = mtlib.run_driver(exe_asan if params.get("asan") else exe, "enc", g["path"], os.path.join(wd, "eo.%d" % idx), os.path.join(wd, "et.%d" % idx), **p)
+        res = mtlib.run_driver(exe_asan if params.get("asan") else exe, "enc", g["path"], os.path.join(wd, "eo.%d" % idx), os.path.join(wd, "et.%d" % idx),
+                                proc_timeout=240 if g.get("big") else 60, **p)
         out = open(os.path.join(wd, "eo.%d" % idx), "rb").read() if os.path.exists(os.path.join(wd, "eo.%d" % idx)) else b""
         return idx, res, out
     with cf.ThreadPoolExecutor(8) as ex:
         results = list(ex.map(exec_job, range(len(jobs))))
     ref_cache = {}
+    fallback_runs = [0]
     for idx, res, out in results:
         g, params, acts = jobs[idx]
         label = "%s:T%d:bs%d:to%d:seed%d:%s%s" % (g["inp"], g["nw"], g["bs"], g["timeout"], params["seed"], params["actions"],
@@ -187,6 +203,8 @@ def run(ctx):
             violation("crash:%s" % g["inp"], "driver exit %s\n%s" % (res["rc"], res["stderr"][-3000:]), rp)
             continue
         init_ev, evs = mtlib.fold(res["events"])
+        if g.get("big"):
+            fallback_runs[0] += any(e["e"] == "WEncCode" and e["d"] == 1 for e in evs)
         if any(e["e"] in ("OVERFLOW", "TOOMANYCALLS") for e in evs):
             raise MachineryError("driver event buffer overflow / too many calls: " + label)
         ri = max([i for i, e in enumerate(evs) if e["e"] == "Reinited"] + [0])
@@ -244,7 +262,9 @@ def run(ctx):
                         p1 = dict(threads=1, blocksize=bs_eff, seed=1, slicing=0)
                         if params["actions"]:
                             p1["actions"] = params["actions"]
-                        r1 = mtlib.run_driver(exe, "enc", g["path"], os.path.join(wd, "ref.out"), os.path.join(wd, "ref.tr"), **p1)
+                        if "check" in params:
+                            p1.update(check=params["check"], watchdog=120)
+                        r1 = mtlib.run_driver(exe_asan if g.get("big") else exe, "enc", g["path"], os.path.join(wd, "ref.out"), os.path.join(wd, "ref.tr"), **p1)
                         if r1["hang"] or r1["rc"] not in (0, 66) or not os.path.exists(os.path.join(wd, "ref.out")):
                             violation("hang:%s:T1:to0" % g["inp"], "single-thread reference run did not terminate / failed (rc %s)" % r1["rc"],
                                           dict(kind="run", mode="enc", params=p1, input=g["inp"]))
@@ -257,6 +277,9 @@ def run(ctx):
         tailsz = len(out) - 12 - sum(e["b"] for e in blocks) if finished else 0
         evs2 = [e for e in evs if e["e"] != "FlushDone" and not (e["e"] == "Reinited" and e["a"] != 0)]
         g["runs"].append(((("reinit-raced:" if raced else pre) + label), [{"e": "Reset", "tailsz": max(tailsz, 0)}] + evs2))
+    if not fallback_runs[0]:
+        raise MachineryError("no run reached the incompressible-Block fallback of worker_encode (vacuous bigrand group)")
+    ctx.log("incompressible fallback reached in %d run(s)" % fallback_runs[0])
     def validate_group(g):
         if not g["runs"]:
             return g, None
@@ -279,7 +302,7 @@ def run(ctx):
     if groups and groups[0]["runs"]:
         ctx.sample(dict(kind="recorded_execution_head", label=groups[0]["runs"][0][0], events=groups[0]["runs"][0][1][:40]))
     ctx.assumptions += ["critical sections are atomic (lock discipline); TSan observes executed interleavings only",
-                        "the incompressible-fallback path (lzma_block_uncomp_encode) is explored in the model only: real inputs did not reach it",
+                        "the incompressible-fallback path (lzma_block_uncomp_encode) is reached by the 24 MiB random-data runs only (ASan build, 2 threads)",
                         "model constants: <= 2 workers, block_size <= 2 units, <= 4 input units, <= 8 calls"]
     return ctx.finish(rule="evaluations = threaded encoder executions (input x threads x block_size x timeout x seed: slicing + "
                       "schedule perturbation + flush/barrier script + early lzma_end), each recorded through the hooks and "
